@@ -297,7 +297,8 @@ func init() {
 		SyncYields: true,
 		Setup:      func(repo, tier string) error { return LoadSamples(repo) },
 		Assumptions: []string{
-			"interleavings are explored at device-event granularity (every Read/Seek/ReadAt, actor entry/exit); code between two device events is atomic in simulation; torn or reordered accesses are left to the happens-before detector",
+			"scheduling points: every device event (Read/Seek/ReadAt, actor entry/exit) and - in the instrumented scratch copy the workers are built from (sim/yieldinst) - every synchronisation operation of the library (mutex, pool, atomic, WaitGroup calls); mutexes are acquired by TryLock with a forced hand-over, so a task never blocks with the baton in hand; code between two scheduling points is atomic in simulation; torn or reordered accesses are left to the happens-before detector",
+			"a run that stalls with a task sitting in a blocking primitive the simulator does not intercept (channel, condition variable) is re-executed without the serialising scheduler and only noted when it finishes that way",
 			"world A (plain build, GOMAXPROCS=1) judges results against solo runs on pristine state; world B (-race build, GOMAXPROCS 1/4/16 by worker) judges only the race detector and fatal errors, because the race build's sync.Pool drops Puts at random",
 			"the scheduler's baton is a plain word in //go:norace functions: it adds no happens-before edge between tasks",
 			"configuration writes (SetLogger) concurrent with decodes are outside the property and are not scheduled",
